@@ -77,6 +77,7 @@ type Ctx struct {
 	progress int64
 	current  string
 	watching bool
+	race     raceFlags // race-pass mode of the native -race build (race.go)
 }
 
 // Init parses the common flags.
@@ -90,6 +91,7 @@ func Init(property string) *Ctx {
 	flag.StringVar(&c.Only, "only", "", "only scenarios whose name contains this substring")
 	budget := flag.Duration("budget", 0, "wall budget for this worker (0: tier default)")
 	flag.Int64Var(&c.Seed, "seed", 0, "seed (unused by exhaustive checks; recorded)")
+	c.raceFlagSetup()
 	flag.Parse()
 	if *budget == 0 {
 		if c.Tier == "quick" {
@@ -182,6 +184,9 @@ var stopProfile = func() {}
 
 // Finish writes the result and exits.
 func (c *Ctx) Finish() {
+	if c.RacePassMode() {
+		c.raceRun() // does not return
+	}
 	stopProfile()
 	c.Res.WallS = time.Since(c.start).Seconds()
 	c.Res.StateCount = int64(len(c.states))
@@ -318,6 +323,9 @@ func (c *Ctx) Add(sc Scenario) { c.scens = append(c.scens, sc) }
 // bound 0, then every scenario at bound 1, ... so that a wall-clock cap only ever cuts the highest bound.
 // BoundDone is the highest bound completed for *all* scenarios of this worker.
 func (c *Ctx) ExploreAll() {
+	if c.RacePassMode() {
+		c.raceRun() // native -race build: free runs of the scenario bodies instead of the exploration; does not return
+	}
 	if c.Replay != "" {
 		return
 	}
@@ -385,6 +393,10 @@ func (c *Ctx) startWatchdog() {
 
 // Explore runs one scenario under all of its bounds immediately.
 func (c *Ctx) Explore(sc Scenario) {
+	if c.RacePassMode() {
+		c.Add(sc) // run by Finish
+		return
+	}
 	if c.Replay != "" {
 		return
 	}
